@@ -58,6 +58,8 @@ def features(case, vio):
     op, in_conc = failing_op(case, vio)
     if in_conc:
         feats.add("threads")
+    if spec.get("flaky"):
+        feats.add("flaky_factory")
     if spec.get("factory_dialects"):
         feats.add("factory_dialects")
     if any((d.get("date") or "").startswith("obj_") for d in spec.get("dialects", [])):
